@@ -68,7 +68,7 @@ def newline_rules(ctx: Ctx, rid: str) -> None:
     ctx.check(set(order) == {"\r\n", "\r", "\n"} and not bad, "newline_re:order", "lexer:<module>", "newline_re alternative order",
               f"newline_re = {pat.pattern!r}: alternatives {order!r}; an earlier alternative is a prefix of a later one {bad!r}, so \\r\\n would be split into two line breaks", "src/jinja2/lexer.py", detail={"pattern": pat.pattern, "alternatives": [repr(x) for x in order]})
     nn = ctx.repo.func("lexer:Lexer._normalize_newlines")
-    r = astq.returns(nn.node)
+    r = astq.returns(nn.nnode)
     ctx.check(len(r) == 1 and ast.unparse(r[0].value) == "newline_re.sub(self.newline_sequence, value)", "_normalize_newlines", "lexer:Lexer._normalize_newlines", "normalisation", "_normalize_newlines must replace every line break with self.newline_sequence", nn.loc())
     wrap = ctx.repo.func("lexer:Lexer.wrap")
     for tok, frag in (("TOKEN_DATA", "value = self._normalize_newlines(value_str)"), ("TOKEN_STRING", "self._normalize_newlines(value_str[1:-1])")):
